@@ -373,6 +373,16 @@ class Node(ModelElement):
 
         node_id = self.topo.graph_model.find_ns_by_name(parent_node_id=self.node_id,
                                                         nsname=name)
+        # disconnect the service's interfaces (and their sub-interfaces) from network services they are connected to
+        for pi in self.network_services[name].interface_list:
+            for i in [pi] + list(pi.interface_list):
+                peers = i.get_peers(itype=InterfaceType.ServicePort)
+                if peers:
+                    if len(peers) == 1:
+                        self.topo.get_parent_element(peers[0]).disconnect_interface(i)
+                    else:
+                        raise TopologyException(f'Interface {i.name} has more than one peer, '
+                                                f'this is a model error.')
         self.topo.graph_model.remove_ns_with_cps_and_links(node_id=node_id)
 
     def remove_storage(self, name: str) -> None:
